@@ -55,7 +55,7 @@ func genFacts(repo, outdir string) {
 					}
 					return true
 				})
-				if fd.Name.Name == "TemplateGenFromString" || fd.Name.Name == "TsGenFromString" {
+				if fd.Name.Name == "TemplateGenFromString" || fd.Name.Name == "TsGenFromString" || name == "*TemplateBuilder.WriteFile" {
 					var calls []string
 					ast.Inspect(fd.Body, func(n ast.Node) bool {
 						if ce, ok := n.(*ast.CallExpr); ok {
@@ -90,7 +90,7 @@ func genFacts(repo, outdir string) {
 		fmt.Fprintf(&sb, "  (%q, %q, %q)%s\n", s.pkg, s.fn, s.expr, sep)
 	}
 	sb.WriteString("]\n\n")
-	for _, fn := range []string{"TemplateGenFromString", "TsGenFromString"} {
+	for _, fn := range []string{"TemplateGenFromString", "TsGenFromString", "WriteFile"} {
 		fmt.Fprintf(&sb, "/-- calls made by %s, in source order -/\ndef calls_%s : List String := [", fn, fn)
 		for i, c := range genCalls[fn] {
 			if i > 0 {
@@ -99,9 +99,26 @@ func genFacts(repo, outdir string) {
 			fmt.Fprintf(&sb, "%q", c)
 		}
 		sb.WriteString("]\n\n")
+		if fn == "WriteFile" {
+			continue
+		}
 		// the same sequence classified in the vocabulary of Yv/Spec/GenOps.lean (unknown calls are fallible: fail closed)
 		fmt.Fprintf(&sb, "def ops_%s : List Op := [", fn)
-		for i, c := range genCalls[fn] {
+		// `b.WriteFile(f)` is not opaque: its own calls are spliced in at the call site
+		var seq []string
+		for _, c := range genCalls[fn] {
+			if strings.HasPrefix(c, "b.WriteFile(") {
+				if len(genCalls["WriteFile"]) == 0 {
+					panic("(*TemplateBuilder).WriteFile not found")
+				}
+				for _, w := range genCalls["WriteFile"] {
+					seq = append(seq, "WriteFile:"+w)
+				}
+			} else {
+				seq = append(seq, c)
+			}
+		}
+		for i, c := range seq {
 			if i > 0 {
 				sb.WriteString(", ")
 			}
@@ -110,8 +127,11 @@ func genFacts(repo, outdir string) {
 				sb.WriteString(".create")
 			case strings.HasPrefix(c, "f.WriteString("):
 				fmt.Fprintf(&sb, ".write %v", c == "f.WriteString(b.CodeLast)")
-			case strings.HasPrefix(c, "b.WriteFile("):
+			case c == "WriteFile:templ.Execute(f, b)":
 				sb.WriteString(".write true") // the template; that it ends with the epilogue slot is a separate fact below
+			case c == "WriteFile:template.New(\"gotemplate\").Parse(chooseTemplate)", c == "WriteFile:template.New(\"gotemplate\")",
+				c == "WriteFile:panic(err)", c == "WriteFile:f.Close()":
+				sb.WriteString(".other") // parsing a compiled-in template does not depend on the input
 			case strings.HasPrefix(c, "fmt.Errorf("), strings.HasPrefix(c, "f.Close("):
 				sb.WriteString(".other")
 			default:
